@@ -145,8 +145,8 @@ def d4_run_uids(ctx, rm: REModel):
     ok = bool(c) and len(fields) >= 3 and [got.get(x) for x in fields[:3]] == ["tuple(self._run_start_uids)", "plan_return", "self._exit_status"]
     ctx.ob("C13.D4-run-uids", cname(cr, None, "RunEngineResult(uids, plan_return, exit_status, ...)"), ok, "" if ok else "result fields permuted", where=where(cr, cr.node))
     # plan_return comes from the StopIteration of the last plan
-    lad = [h2 for h2 in rm.outer_try.handlers if h2.type is not None and A.norm(h2.type) == "StopIteration" and h2.name]
-    ok = bool(lad) and any(A.norm(s) == f"plan_return = {lad[0].name}.value" for s in lad[0].body) and any(
+    lad = [h2 for h2 in rm.outer_try.handlers if h2.type is not None and h2.name and "StopIteration" in [A.norm(e_) for e_ in (h2.type.elts if isinstance(h2.type, ast.Tuple) else [h2.type])]]
+    ok = bool(lad) and any(A.norm(s) == f"plan_return = {lad[0].name}.value" for s in A.walk_stmts(lad[0].body)) and any(
         isinstance(s, ast.Return) and A.norm(s.value) == "plan_return" for s in rm.run.node.body)
     ctx.ob("C13.D4-run-uids", cname(rm.run, None, "plan_return = the top-level plan's return value"), ok, "" if ok else "the plan's return value is lost", where=where(rm.run, rm.run.node))
 
